@@ -244,3 +244,126 @@ pub fn c02_table(seed: u64, thorough: bool, out: &mut dyn Write) -> Stats {
     }
     st
 }
+
+/// C20: call binding.  Every zoo signature x 0..arity+2 arguments of matching and mismatching kinds
+/// x both call styles; every receiver-style built-in x receivers/arguments of every kind in both
+/// styles (the two outcomes are recorded side by side); built-ins overridden by host functions.
+pub fn c20_table(seed: u64, thorough: bool, out: &mut dyn Write) -> Stats {
+    use std::sync::Arc;
+    let mut rng = Rng::new(seed);
+    let s = |x: &str| Value::String(Arc::new(x.to_string()));
+    // one variable per kind
+    let kinds: Vec<(&str, Value)> = vec![
+        ("ki", Value::Int(5)), ("ku", Value::UInt(6)), ("kd", Value::Float(1.5)), ("ks", s("ab")), ("ky", Value::Bytes(Arc::new(vec![1, 2]))),
+        ("kb", Value::Bool(true)), ("kl", Value::List(Arc::new(vec![Value::Int(1), s("a")]))), ("kn", Value::Null),
+        ("km", gen::gen_value(&mut rng, &T::Map(Box::new(T::Str), Box::new(T::Int)), 3)),
+        ("kdur", Value::Duration(chrono::Duration::seconds(90))), ("kts", Value::Timestamp(chrono::DateTime::parse_from_rfc3339("2024-02-29T23:59:59.5+02:00").unwrap())),
+    ];
+    let vars: Vec<(String, Value)> = kinds.iter().map(|(n, v)| (n.to_string(), v.clone())).collect();
+    let names: Vec<&str> = kinds.iter().map(|(n, _)| *n).collect();
+    // zoo function -> (arity counted in call arguments for the global style, preferred kinds)
+    let zoo: Vec<(&str, Vec<&str>)> = vec![
+        ("t", vec!["ki", "ks"]), ("tb", vec!["ki"]), ("fail", vec!["ki"]), ("h0", vec![]), ("h1", vec!["ks"]), ("h2", vec!["ki", "ks"]), ("h3", vec!["ki", "ks", "kb"]),
+        ("h4", vec!["ki", "ks", "kb", "kl"]), ("h9", vec!["ki", "ku", "kd", "ks", "ky", "kb", "kl", "kn", "km"]), ("m0", vec!["ks"]), ("m1", vec!["ks", "ki"]),
+        ("m2", vec!["ks", "ki", "kb"]), ("m3", vec!["kl", "ki", "kb", "kn"]), ("va", vec!["ki", "ks"]), ("idf", vec!["ki"]), ("fi", vec!["ki"]), ("fu", vec!["ku"]),
+        ("fd", vec!["kd"]), ("fs", vec!["ks"]), ("fy", vec!["ky"]), ("fb", vec!["kb"]), ("fl", vec!["kl"]), ("fis", vec!["ki", "ks"]), ("msi", vec!["ks", "ki"]),
+        ("c0", vec![]), ("c2", vec!["ks", "ki"]), ("mo", vec!["kn", "ki", "ks"]),
+    ];
+    let mut st = Stats { cases: 0, compile_fail: 0, panics: 0 };
+    let mut id = 0usize;
+    let mut emit = |src: String, twin: Option<String>, overrides: &[String], st: &mut Stats, out: &mut dyn Write| {
+        id += 1;
+        let run_one = |src: &str| -> Option<(J, J, Vec<J>)> {
+            match run::compile(src) {
+                run::Compiled::Ok(p, ast) => {
+                    let (o, l) = run::execute_with(&p, &vars, true, overrides);
+                    Some((ast, o, l))
+                }
+                _ => None,
+            }
+        };
+        match run_one(&src) {
+            Some((ast, o, l)) => {
+                if o["k"] == "panic" {
+                    st.panics += 1;
+                }
+                let mut c = json!({"ev": "case", "id": id, "src": src, "ast": ast, "vars": run::vars_json(&vars), "log": l, "out": o, "overrides": overrides});
+                if let Some(t) = twin {
+                    if let Some((_, o2, l2)) = run_one(&t) {
+                        c["twin"] = json!({"src": t, "out": o2, "log": l2});
+                    }
+                }
+                writeln!(out, "{}", c).unwrap();
+                st.cases += 1;
+            }
+            None => st.compile_fail += 1,
+        }
+    };
+    let call = |f: &str, args: &[&str], recv: bool| -> String {
+        if recv && !args.is_empty() {
+            format!("{}.{}({})", args[0], f, args[1..].join(", "))
+        } else {
+            format!("{}({})", f, args.join(", "))
+        }
+    };
+    for (f, pref) in &zoo {
+        let k = pref.len();
+        for n in 0..=(k + 2) {
+            // matching kinds, extended by extra arguments
+            let base: Vec<&str> = (0..n).map(|i| if i < k { pref[i] } else { "ki" }).collect();
+            for recv in [false, true] {
+                emit(call(f, &base, recv), None, &[], &mut st, out);
+            }
+            // one mismatching kind per position
+            for pos in 0..n.min(k) {
+                for other in &names {
+                    if *other == pref[pos] || (!thorough && !rng.chance(1, 2)) {
+                        continue;
+                    }
+                    let mut a = base.clone();
+                    a[pos] = other;
+                    for recv in [false, true] {
+                        emit(call(f, &a, recv), None, &[], &mut st, out);
+                    }
+                }
+            }
+        }
+        // an argument that is an expression with an effect / an error / an identifier
+        if k >= 1 {
+            let mut a: Vec<&str> = pref.clone();
+            a[0] = "t(1, ki)";
+            emit(call(f, &a, false), None, &[], &mut st, out);
+            a[0] = "(1 / 0)";
+            emit(call(f, &a, false), None, &[], &mut st, out);
+            emit(call(f, &a, true), None, &[], &mut st, out);
+        }
+    }
+    // receiver-style built-ins: x.f(args) and f(x, args) side by side
+    let unary_b = ["size", "string", "int", "uint", "double", "getFullYear", "getMonth", "getDayOfYear", "getDayOfMonth", "getDate", "getDayOfWeek", "getHours",
+                   "getMinutes", "getSeconds", "getMilliseconds"];
+    let binary_b = ["contains", "startsWith", "endsWith", "matches"];
+    for f in unary_b {
+        for x in &names {
+            emit(format!("{}.{}()", x, f), Some(format!("{}({})", f, x)), &[], &mut st, out);
+        }
+    }
+    for f in binary_b {
+        for x in &names {
+            for y in &names {
+                emit(format!("{}.{}({})", x, f, y), Some(format!("{}({}, {})", f, x, y)), &[], &mut st, out);
+            }
+        }
+    }
+    // a host function registered under a built-in's name replaces it
+    for f in ["size", "contains", "int", "startsWith", "t"] {
+        let ov = vec![f.to_string()];
+        for x in &names {
+            emit(format!("{}({})", f, x), None, &ov, &mut st, out);
+            emit(format!("{}.{}()", x, f), None, &ov, &mut st, out);
+            emit(format!("{}({}, ki)", f, x), None, &ov, &mut st, out);
+        }
+        emit(format!("{}()", f), None, &ov, &mut st, out);
+        emit(format!("[1, 2].map(x, {}(x))", f), None, &ov, &mut st, out);
+    }
+    st
+}
